@@ -410,10 +410,15 @@ func runC16(c *Ctx) {
 			n++
 			// loop condition: count < window (window from ExtendHorizon #1)
 			okCond := false
+			counterAtom := "" // the loop-carried counter is identified by its role in the loop condition, not by its name
 			if iff, ok := l.Header.Instrs[len(l.Header.Instrs)-1].(*ssa.If); ok {
-				if f, okf := p.cmpForm(iff.Cond, true); okf && f.Rel == "<" {
-					s := f.L.String()
-					okCond = strings.Contains(s, "-1*call:ExtendHorizon#1") && strings.Contains(s, "+1*phi:count") && strings.HasSuffix(s, "+0")
+				if f, okf := p.cmpForm(iff.Cond, true); okf && f.Rel == "<" && f.L.Konst == 0 && len(f.L.Coef) == 2 && f.L.Coef["call:ExtendHorizon#1"] == -1 {
+					for a, cf := range f.L.Coef {
+						if strings.HasPrefix(a, "phi:") && cf == 1 {
+							counterAtom = a
+							okCond = true
+						}
+					}
 				}
 			}
 			formSeen := ""
@@ -426,7 +431,7 @@ func runC16(c *Ctx) {
 			// the counter is advanced only on iterations that registered an address
 			var countPhi *ssa.Phi
 			for _, ins := range l.Header.Instrs {
-				if ph, ok := ins.(*ssa.Phi); ok && ph.Comment == "count" {
+				if ph, ok := ins.(*ssa.Phi); ok && counterAtom != "" && "phi:"+ph.Comment == counterAtom {
 					countPhi = ph
 				}
 			}
